@@ -171,6 +171,7 @@ fn engine_conc(args: &Args) -> i32 {
                 1 => conc::clonedrop(cseed, &conc::make_w2, nthreads, len, st),
                 _ => conc::clonedrop(cseed, &conc::make_w2_fat, nthreads, len, st),
             },
+            "plaindrop" => conc::plaindrop(cseed, k as usize, nthreads, len, st),
             "uniqpoll" => conc::uniqpoll(cseed, if scen == "all" { (k / 4) as usize } else { k as usize }, 1 + ((k / 32) % 2) as usize, st),
             "cow" => conc::cow(cseed, if scen == "all" { (k / 4) as usize } else { k as usize }, 1 + ((k / 12) % 2) as usize, st),
             _ => conc::unwraprace(cseed, 2 + ((k / 4) % 2) as usize, st),
@@ -180,7 +181,7 @@ fn engine_conc(args: &Args) -> i32 {
             Err(msg) => Err((
                 Viol {
                     props: match which.as_str() {
-                        "clonedrop" => "C02",
+                        "clonedrop" | "plaindrop" => "C02",
                         "uniqpoll" => "C03",
                         "cow" => "C08",
                         _ => "C09",
